@@ -1,5 +1,6 @@
 From SV Require Import Base.ListX Store.Masked World.Env World.Join World.JoinProps World.JoinAbs World.JoinRefine
-  World.JoinAbsProps World.EnvSim World.JoinNoStuck World.Simulation.
+  World.JoinAbsProps World.EnvSim World.JoinNoStuck World.Simulation
+  Bits.Hibit Bits.HibitIter Bits.HibitOrder Bits.HibitSet Bits.HibitExpr Bits.HibitOps.
 From Coq Require Import Sorting.Sorted.
 From SV Require Import Props.C06.
 Check (C06_ascending_once : forall e eids ms keys, jkeys e eids ms = Some keys ->
@@ -89,3 +90,11 @@ Check (C06_joins_are_never_stuck : forall e av eids hs k ms, EInv e -> cx_stuck 
   cx_stuck (se_cx (fst (env_join e av eids hs k ms))) = false /\ EInv (fst (env_join e av eids hs k ms))).
 Check (C06_joins_add_no_member : forall e av eids hs k ms sid i,
   NS.mem i (env_mask (fst (env_join e av eids hs k ms)) sid) = true -> NS.mem i (env_mask e sid) = true).
+Check (C06_bitset_tracks_the_plain_set : forall ops,
+  Forall (fun o => bop_index o < top) ops ->
+  represents (fold_left bs_do ops bs_empty) (fold_left ns_do ops NS.empty)).
+Check (C06_bitset_iteration_is_the_ascending_element_list : forall s m, represents s m ->
+  drain_iter (bs_get s) (S (weight (fresh (bs_get s)))) (fresh (bs_get s)) = Some (NS.elements m)).
+Check (C06_mask_iteration_yields_exactly_the_members_in_index_order : forall g P, exact g P ->
+  exists out, drain_iter g (S (weight (fresh g))) (fresh g) = Some out /\
+              StronglySorted N.lt out /\ forall x, In x out <-> P x).
